@@ -34,7 +34,9 @@ MANIFEST = dict(
          "plus a small per-instance connection machine; the function is specified in TLA+, TLC enumerates the whole finite "
          "abstract case space (4 formats x header-overlap/Host precedence x ssl x method x uri x body) and decides on what "
          "real servers received, so 'for every format alike' and 'only where the entry does not define it' are quantified, "
-         "not sampled; connection reuse is decided on the server's own ConnState log for N=1..4 instances.",
+         "not sampled; connection reuse is decided on the server's own ConnState log for N=1..4 instances. Grown beyond the "
+         "statement: multi-entry files, connect gun (CONNECT line, tunnel per connection, refused tunnel), shared-client pools "
+         "(connections <= client-number, round-robin), header/date middleware, answlog/httptrace as pure observers.",
     note="Header values/URIs/bodies are tokens of a fixed alphabet (RFC-valid URIs, printable bodies; byte-level fidelity of "
          "arbitrary bodies is C07's). Extra headers tolerated: exactly Go's transport defaults (User-Agent when absent, "
          "Content-Length/Transfer-Encoding, Accept-Encoding only with compression on). json: Host inside `headers` without "
@@ -63,13 +65,20 @@ def _case_class(c):
         return "file fmt=%s entries=%d opts=%s preload=%s redefines=%s" % (
             c["fmt"], len(c["entries"]), "yes" if c["opts"] else "no", c["preload"], "yes" if redef else "no")
     empty = any(h["v"].strip() == "" for h in c["ehdr"])
+    extra = ""
+    if c.get("gun") == "connect":
+        extra = " gun=connect cssl=%s cstatus=%s" % (c["cssl"], c["cstatus"])
+    if "mw" in c:
+        extra = " mw=header/date(name=%s,loc=%s)" % (c["mw"]["name"] or "default", c["mw"]["loc"] or "UTC")
+    if "side" in c:
+        extra = " side=answlog:%s,status:%s,httptrace:%s" % (c["side"]["answlog"], c["side"]["status"], c["side"]["trace"])
     en = sorted(h["n"].lower() for h in c["ehdr"])
     on = sorted(o["n"].lower() for o in c["opts"])
     overlap = sorted(set(en) & set(on))
     uriclass = "rfc" if re.fullmatch(r"[A-Za-z0-9\-._~!$&'()*+,;=:@/?%]*", c["uri"]) else "nonrfc"
-    return "fmt=%s host=%s opthost=%s overlap=%s%s uri=%s" % (c["fmt"], "ammo" if c["host"] else "none",
-                                                              "yes" if "host" in on else "no", ",".join(overlap) or "-",
-                                                              "(empty-valued)" if empty else "", uriclass)
+    return "fmt=%s host=%s opthost=%s overlap=%s%s uri=%s%s" % (c["fmt"], "ammo" if c["host"] else "none",
+                                                                "yes" if "host" in on else "no", ",".join(overlap) or "-",
+                                                                "(empty-valued)" if empty else "", uriclass, extra)
 
 
 def validate_cases(v, obs_path, cfg, timeout=900):
@@ -135,42 +144,49 @@ def run(tier, v):
     d = vlib.scratch()
     cases = os.path.join(d, "cases.ndjson")
     pos = [("HttpWireMC", "HttpWire_exh%s.cfg" % sfx), ("HttpWireMC", "HttpWire_files%s.cfg" % sfx),
-           ("HttpConnMC", "HttpConn_exh%s.cfg" % sfx)]
+           ("HttpConnMC", "HttpConn_exh%s.cfg" % sfx), ("HttpConnMC", "HttpConn_shared.cfg"), ("HttpConnMC", "HttpConn_shared1.cfg")]
     negs = [("HttpWireMC", "HttpWire_neg_config_wins.cfg"), ("HttpWireMC", "HttpWire_neg_host_target.cfg"),
             ("HttpWireMC", "HttpWire_neg_opt_always.cfg"), ("HttpWireMC", "HttpWire_neg_empty_undefined.cfg"),
-            ("HttpWireMC", "HttpWire_neg_live_map.cfg"),
-            ("HttpConnMC", "HttpConn_neg_noreuse.cfg"), ("HttpConnMC", "HttpConn_neg_idledrop.cfg")]
+            ("HttpWireMC", "HttpWire_neg_live_map.cfg"), ("HttpWireMC", "HttpWire_neg_connect_plain.cfg"),
+            ("HttpWireMC", "HttpWire_neg_mw_twice.cfg"), ("HttpWireMC", "HttpWire_neg_side_changes.cfg"),
+            ("HttpConnMC", "HttpConn_neg_noreuse.cfg"), ("HttpConnMC", "HttpConn_neg_idledrop.cfg"),
+            ("HttpConnMC", "HttpConn_neg_ownclient.cfg")]
+    if not thorough:
+        # quick: one negative control per mechanism; the thorough tier runs all of them
+        skip = ("host_target", "opt_always", "mw_twice", "side_changes", "shared1")
+        negs = [(m, c) for m, c in negs if not any(k in c for k in skip)]
+        pos = [(m, c) for m, c in pos if "shared1" not in c]
     vlib.spec_copy()
-    with concurrent.futures.ThreadPoolExecutor(max_workers=5) as ex:
-        fpos = [ex.submit(vlib.tlc, m, c, deadlock=False, workers=3, heap="6g", timeout=2400) for m, c in pos]
+    obs = os.path.join(d, "obs.ndjson")
+    conn = os.path.join(d, "conn.ndjson")
+
+    def conn_part(b_):
+        # M1 (connection reuse): needs only the harness, so it runs next to everything else
+        vlib.run_driver(b_, ["httpwire", "-mode", "conn", "-out", conn, "-n", "4", "-r", "12" if thorough else "5"], timeout=900)
+        return validate_conn(v, conn)
+
+    with concurrent.futures.ThreadPoolExecutor(max_workers=7) as ex:
         fgen = ex.submit(vlib.tlc, "HttpWireGen", "HttpWire_gen%s.cfg" % sfx, env={"VERIF_OUT": cases}, workers=1, heap="6g",
                          timeout=1200, deadlock=False)
+        fpos = [ex.submit(vlib.tlc, m, c, deadlock=False, workers=3, heap="6g", timeout=2400) for m, c in pos]
         fneg = [ex.submit(vlib.tlc, m, c, deadlock=False, workers=1, heap="3g", timeout=900) for m, c in negs]
+        b = vlib.harness_build()          # while TLC works
+        fconn = ex.submit(conn_part, b)
+        # M2: the complete case space -> real provider + gun, as soon as the generator is done
+        g = fgen.result()
+        if g.error or g.violation or not os.path.exists(cases):
+            raise vlib.MachineryError("case generation failed: %s\n%s" % (g.kind, g.out[-3000:]))
+        gen = vlib.read_ndjson(cases)
+        vlib.run_driver(b, ["httpwire", "-mode", "cases", "-cases", cases, "-out", obs], timeout=1800)
+        rows, tr = validate_cases(v, obs, "TraceHttpWire%s.cfg" % sfx, timeout=3000)
         for (m, c), f in zip(pos, fpos):
             r = f.result()
             vlib.tlc_must_pass(r, c)
             states += r.distinct
             trans += r.generated
             design.append("%s: %d states" % (c, r.distinct))
-        g = fgen.result()
         for (m, c), f in zip(negs, fneg):
             vlib.tlc_must_fail(f.result(), c)
-    if g.error or g.violation or not os.path.exists(cases):
-        raise vlib.MachineryError("case generation failed: %s\n%s" % (g.kind, g.out[-3000:]))
-    gen = vlib.read_ndjson(cases)
-    # 2. M2 (the complete case space -> real provider + gun) and 3. M1 (connection reuse), concurrently
-    b = vlib.harness_build()
-    obs = os.path.join(d, "obs.ndjson")
-    conn = os.path.join(d, "conn.ndjson")
-
-    def conn_part():
-        vlib.run_driver(b, ["httpwire", "-mode", "conn", "-out", conn, "-n", "4", "-r", "12" if thorough else "5"], timeout=900)
-        return validate_conn(v, conn)
-
-    with concurrent.futures.ThreadPoolExecutor(max_workers=2) as ex:
-        fconn = ex.submit(conn_part)
-        vlib.run_driver(b, ["httpwire", "-mode", "cases", "-cases", cases, "-out", obs], timeout=1800)
-        rows, tr = validate_cases(v, obs, "TraceHttpWire%s.cfg" % sfx, timeout=3000)
         crows, runs, ctr = fconn.result()
     want = sorted((c["id"], k) for c in gen for k in (range(1, len(c["c"]["entries"]) + 1) if "entries" in c["c"] else [0]))
     if sorted((r["id"], r["k"]) for r in rows) != want:
@@ -190,6 +206,10 @@ def run(tier, v):
         "samples": samples,
         "exhaustive": True,
         "evaluations": len(rows),
+        "connect_gun_cases": sum(1 for c in gen if c["c"].get("gun") == "connect"),
+        "middleware_cases": sum(1 for c in gen if "mw" in c["c"]), "side_channel_cases": sum(1 for c in gen if "side" in c["c"]),
+        "conn_runs_connect_gun": sum(1 for r in runs if r.get("gun") == "connect"),
+        "conn_runs_shared_client": sum(1 for r in runs if r.get("shared")),
         "single_entry_cases": len(gen) - len(files), "multi_entry_files": len(files), "file_entries_checked": len(rows) - len(single),
         "conn_runs_with_client_options": sum(1 for r in runs if r.get("opts")),
         "conn_runs_with_idle_gap": sum(1 for r in runs if r.get("gap_ms")),
@@ -197,7 +217,9 @@ def run(tier, v):
         "rule": "complete product formats x methods(format) x bodies(format) x ssl x compression x uris x ammo-Host x "
                 "subsets(entry headers) x subsets(option headers) of the config's alphabets, generated by TLC (HttpWireGen); "
                 "+ present-but-empty / blank entry values against every option list + multi-entry files (2-3 entries, header/Host "
-                "lines redefined between them, with/without headers option, stream/preload, 4 formats; one line per entry); "
+                "lines redefined between them, with/without headers option, stream/preload, 4 formats; one line per entry) "
+                "+ connect gun through a recording CONNECT proxy (ssl x connect-ssl, refused tunnel) + header/date middleware "
+                "(name x location x entry defines the header) + answlog filter x status x httptrace; "
                 "non-trivial = the entry or the option defines at least one header/Host, or a file case (distinct abstract cases counted)",
         "case_trace_states": tr.distinct,
         "conn_runs": len(runs), "conn_events": len(crows), "conn_trace_states": ctr.distinct,
@@ -213,6 +235,10 @@ def run(tier, v):
         "documented client options away from their defaults (response-header-timeout 150 ms, idle-conn-timeout 10 min, ...) and "
         "idle gaps >= 4 x response-header-timeout between shots; an exchange that fails (possible under load with the small "
         "response-header-timeout) entitles the instance to one more connection",
+        "connect gun: target = an in-process CONNECT proxy that relays to the recording target; shared-client runs are serialised "
+        "(the instances take turns), because a shared transport opens more connections when used concurrently (documented)",
+        "header/date: the stamped instant is read in the configured location and must lie between the driver's clock readings "
+        "around Acquire..Shoot (program order, seconds); the value is labelled GMT whatever the location (observation)",
         "trusted: harness renderer/recorder (harness/cmd/vdrive/httpwire*.go, harness/internal/targets), net/http server parsing",
     ]
 
